@@ -280,11 +280,14 @@ def run_chunk(common, ch, cfgs_of, maxlen, label="engine", sanitize=False):
     K.table = {}
     K.names = {}
     K.rof = set()
+    K.rofs = set()
     for l in p.stdout.split("\n"):
         if l.startswith("NODE "):
             a, h = l[5:].split("|", 1)
             t = a.split()
             K.table[int(t[0])] = {"enabled": t[1] == "1", "named": t[2] == "1", "subs": [int(x) for x in t[4:]], "head": h.split()}
+        elif l.startswith("ROFS "):
+            K.rofs.add(int(l.split()[1]))
         elif l.startswith("ROF "):
             K.rof.add(int(l.split()[1]))
         elif l.startswith("NAME "):
@@ -317,7 +320,7 @@ def expected_message(K, gid, who, ctl=None):
     if who == "CB":
         return "maximum allowed rule consumption exceeded"
     nm, ms = K.names.get(int(who), ("?", ""))
-    if ctl is not None and int(ctl) >= 4 and int(who) in getattr(K, "rof", ()):
+    if ctl is not None and int(ctl) >= 4 and (int(who) in getattr(K, "rof", ()) or int(who) in getattr(K, "rofs", ())):
         return "mustif"               # must_if< mi_errors >::control: the message of the control's error table wins
     if ms.startswith("M"):
         return ms[1:]
